@@ -219,7 +219,7 @@ def concat_symlist(eng, lst, ndim_out):
         n = T.zi(lst.length)
         eng.oblige("ghost/offsets-start-at-zero", off(0) == 0, kind="inv-init")
         segs = [(T.zi(s_), T.zi(t_), lst.item(T.zi(s_))) for (s_, t_) in getattr(eng, "generic_segments", [])]
-        if any(type(seg).__name__ != "LazySeq" for _, _, seg in segs):
+        if any(type(seg).__name__ not in ("LazySeq", "SymList") for _, _, seg in segs):
             raise Unsupported("concatenation of a symbolic list whose items are not lists")
         is_int = all(T.is_int_valued(seg.item(t_)) for _, t_, seg in segs) if segs else False
         cat = z3.Function(f"concat!{T.fresh('c', 'int')}", z3.IntSort(), z3.IntSort() if is_int else z3.RealSort())
